@@ -30,10 +30,12 @@ import QuicProofs.Lemmas.Waker
     `s2n-quic-transport/src/wakeup_queue.rs` are covered ONLY through that handshake and through
     the orderings/call-order bridge; their data paths are not modelled. `worker::Receiver::poll_acquire`
     (check; register; check; check; check) is covered by `no_lost_wakeup_any_rechecks`.
-  * FINDING (model level, not reproducible on the real code in this sandbox — needs a preemption between two
-    instructions and a sanitizer): `State::close` wakes the peer AFTER `open.swap`; when the other
-    side swaps, runs `drop_contents` and deallocates the header in between, that wake touches freed
-    memory (`close_wake_after_free_counterexample`). The slot/FIFO theorems hold regardless.
+  * OBSERVATION (outside the property text, which speaks of slots, order and wake-ups): `State::close`
+    (state.rs:366-372) wakes the peer AFTER `open.swap`; when the other side swaps, runs `drop_contents`
+    (state.rs:472 `header.as_mut()`, :480 `dealloc`) in between, that wake uses the header concurrently
+    with / after its deallocation (`close_wake_after_free_counterexample`). Witnessed on the real code
+    by miri (hooks/spsc_close_miri: "Data race ... retag write of Header in drop_contents"); loom cannot
+    see it. The slot/FIFO theorems hold regardless (`spsc_only_failure_is_header_use_after_free`).
 
   Ghost state (message tags, `gPeer`, `gPrev`, `pushed/popped/dropped`) is never read by a guard.
 -/
